@@ -57,14 +57,28 @@ def specVarFail (b : List Nat) : SpecFail :=
     let w := if d == 0xfd then 2 else if d == 0xfe then 4 else 8
     if rest.length < w then .trunc else .nonmin
 
+/-- specification of a record value of a known kind (the model's `Kind.valOk` has nothing to say
+    about `bigsize`): a BigSize record's value is exactly one canonical BigSize. -/
+def specValOk (k : Kind) (v : List Nat) : Bool :=
+  if k.isBigsize then
+    match specReadBigSize v with
+    | some (_, w) => w == v.length
+    | none => false
+  else k.valOk (v.map UInt8.ofNat)
+
 /-- Naive canonical-stream recogniser: strictly increasing types, minimal
     BigSize, lengths within the input (and ≤ 65535 on the p2p path), known kinds
-    satisfied.  `fuel` bounds the number of records. -/
-def specParse (known : List (Nat × Kind)) (p2p : Bool) :
-    Nat → Option Nat → List Nat → Except SpecFail (List (Nat × List Nat))
+    satisfied.  `fuel` bounds the number of records.
+    With `quirk = true` it instead follows the ONE recorded deviation of the code
+    (F-tlv-bigsize-record-length-ignored): for a record of kind `bigsize` the declared length
+    is ignored and one canonical BigSize is consumed from the stream; the Bool result says
+    whether some BigSize record's consumed width differed from its declared length.  The quirk
+    run is only used to ATTRIBUTE an accepted non-canonical stream to that finding. -/
+def specParse (known : List (Nat × Kind)) (p2p : Bool) (quirk : Bool := false) :
+    Nat → Option Nat → List Nat → Except SpecFail (List (Nat × List Nat) × Bool)
   | 0, _, _ => .error .trunc
   | fuel + 1, prev, b =>
-    if b.isEmpty then .ok [] else
+    if b.isEmpty then .ok ([], false) else
     match specReadBigSize b with
     | none => .error (specVarFail b)
     | some (t, w1) =>
@@ -77,13 +91,30 @@ def specParse (known : List (Nat × Kind)) (p2p : Bool) :
         let b2 := b1.drop w2
         if p2p && decide (l > 65535) then .error .tooLarge else
         let kind := (known.find? (·.1 == t)).map (·.2)
+        let isBig := match kind with | some k => k.isBigsize | none => false
+        if quirk && isBig then
+          match specReadBigSize b2 with
+          | none => .error (specVarFail b2)
+          | some (_, w) =>
+            match specParse known p2p quirk fuel (some t) (b2.drop w) with
+            | .error e => .error e
+            | .ok (rs, dev) => .ok ((t, b2.take w) :: rs, dev || w != l)
+        else
         if !(match kind with | some k => k.lenOk l | none => true) then .error .kindLen else
         if l > b2.length then (if l ≥ pow2_63 then .error .lenWrap else .error .lenBeyond) else
         let v := b2.take l
-        if !(match kind with | some k => k.valOk (v.map UInt8.ofNat) | none => true) then .error .kindVal else
-        match specParse known p2p fuel (some t) (b2.drop l) with
+        if !(match kind with | some k => specValOk k v | none => true) then .error .kindVal else
+        match specParse known p2p quirk fuel (some t) (b2.drop l) with
         | .error e => .error e
-        | .ok rs => .ok ((t, v) :: rs)
+        | .ok (rs, dev) => .ok ((t, v) :: rs, dev)
+
+/-- Is the acceptance of the non-canonical stream `inp` with records `recs` explained by
+    `DBigSize` consuming a different number of bytes than declared (and by nothing else)? -/
+def explainedByBigsize (known : List (Nat × Kind)) (p2p : Bool) (inp : List Nat)
+    (recs : List (Nat × List Nat)) : Bool :=
+  match specParse known p2p true (inp.length + 2) none inp with
+  | .ok (rs, dev) => dev && rs == recs
+  | .error _ => false
 
 def specEncode (rs : List (Nat × List Nat)) : List Nat :=
   rs.foldr (fun r acc => specBigSize r.1 ++ specBigSize r.2.length ++ r.2 ++ acc) []
@@ -102,6 +133,7 @@ def parseKind (s : String) : Option Kind :=
   match s.toList with
   | ['v'] => some .varBytes
   | ['b'] => some .bool
+  | ['g'] => some .bigsize
   | 'f' :: n => (String.ofList n).toNat?.map .fixed
   | 't' :: n => (String.ofList n).toNat?.map .tuint
   | _ => none
@@ -264,7 +296,7 @@ def stepStream (s : St) (ws : List String) (line : String) : IO St := do
   else if tag == "disagree" then
     s ← monitor s "entrypoints-disagree" s!"Decode and DecodeWithParsedTypes disagree: {line.take 120}"
   else
-    let spec := specParse known p2p (inp.length + 2) none inp
+    let spec := (specParse known p2p false (inp.length + 2) none inp).map (·.1)
     if tag == "ok" then
       s := { s with nontrivial := s.nontrivial + 1 }
       let recs := ((res[1]?).bind parseRecs).getD []
@@ -277,9 +309,15 @@ def stepStream (s : St) (ws : List String) (line : String) : IO St := do
           s ← monitor s "stream-reencode" s!"decode-then-encode does not reproduce the input: enc={((kv? res "enc").getD "?").take 60} in={(ws.getD 3 "").take 60}"
         if s.kind == "canon" && !recs.isEmpty then s ← sample s line
       | .error .lenWrap =>
+        if explainedByBigsize known p2p inp recs then
+          s ← monitor s "bigsize-record-length" s!"decoder=tlv_DBigSize accepted a BigSize record whose declared length (>= 2^63) differs from the bytes DBigSize consumed: known={ws.getD 2 ""} in={(ws.getD 3 "").take 60}"
+        else
         s ← monitor s "nonp2p-length-wrap" s!"accepted a record whose declared length >= 2^63 exceeds the input: in={(ws.getD 3 "").take 60}"
       | .error e =>
-        s ← monitor s "stream-accept-noncanonical" s!"accepted a stream that is not canonical ({repr e}): in={(ws.getD 3 "").take 60}"
+        if explainedByBigsize known p2p inp recs then
+          s ← monitor s "bigsize-record-length" s!"decoder=tlv_DBigSize accepted a BigSize record whose declared length differs from the bytes DBigSize consumed ({repr e}): known={ws.getD 2 ""} in={(ws.getD 3 "").take 60}"
+        else
+          s ← monitor s "stream-accept-noncanonical" s!"accepted a stream that is not canonical ({repr e}): in={(ws.getD 3 "").take 60}"
     else
       match spec with
       | .ok _ =>
@@ -287,46 +325,70 @@ def stepStream (s : St) (ws : List String) (line : String) : IO St := do
       | .error _ => s := { s with nontrivial := s.nontrivial + 1 }
   return s
 
-/-- a stream whose known record 0 is BigSize-encoded (`MakeBigSizeRecord`): monitor only. -/
+/-- a stream whose known record 0 is BigSize-encoded (`MakeBigSizeRecord`). -/
 def stepBigSizeRec (s : St) (ws : List String) (line : String) : IO St := do
   let p2p := ws[1]? == some "1"
   let some inp := (ws[2]?).bind hexBytes? | mismatch s "bad hex"
   let res := resWords ws
   let tag := res.headD "?"
+  let known : Known := [(0, .bigsize)]
   let mut s := { s with ops := s.ops + 1 }
   s := bump s (if tag == "err" then s!"bs_err_{res.getD 1 "?"}" else s!"bs_{tag}")
-  -- specification: canonical stream (type 0 opaque), and the value of record 0 is exactly one
-  -- canonical BigSize filling the declared length
-  let spec : Option (Option Nat × List (Nat × List Nat)) :=
-    match specParse [] p2p (inp.length + 2) none inp with
-    | .error _ => none
-    | .ok rs =>
-      match rs.find? (·.1 == 0) with
-      | none => some (none, rs)
-      | some (_, val) =>
-        match specReadBigSize val with
-        | some (v, w) => if w == val.length then some (some v, rs.filter (·.1 != 0)) else none
-        | none => none
+  -- what the implementation reports, as a record list
+  let othersImpl := ((res.find? (·.startsWith "others=")).bind fun w =>
+    parseRecs (String.ofList (w.toList.drop 7))).getD []
+  let recsImpl : List (Nat × List Nat) :=
+    (if kvNat? res "parsed" == some 1 then [(0, specBigSize ((kvNat? res "v").getD 0))] else [])
+      ++ othersImpl
+  -- (X) model (HEAD behaviour of DBigSize included)
+  match decodeStream known p2p (toU8 inp) with
+  | .ok rs =>
+    if !(tag == "ok" && rs.map (fun r => (r.1, ofU8 r.2)) == recsImpl) then
+      s ← mismatch s s!"bigsize stream: model=ok impl={tag} {line.take 100}"
+  | .error e =>
+    if !(tag == "err" && res[1]? == some (sErrName e)) then
+      s ← mismatch s s!"bigsize stream: model=err {sErrName e} impl={tag} {(res.getD 1 "").take 20} {line.take 80}"
+  -- (S) monitor: canonical = record 0 is exactly one canonical BigSize filling its declared length
+  let spec := (specParse known p2p false (inp.length + 2) none inp).map (·.1)
   if tag == "panic" then
     s ← monitor s "panic" s!"stream decode panicked in={(ws.getD 2 "").take 60}"
   else if tag == "ok" then
     s := { s with nontrivial := s.nontrivial + 1 }
     match spec with
-    | none =>
-      s ← monitor s "bigsize-record-length" s!"accepted a stream in which record 0 is not exactly one canonical BigSize of its declared length (or which is not canonical): {line.take 140}"
-    | some (v?, others) =>
-      let parsed := kvNat? res "parsed" == some 1
-      let okV := match v? with
-        | some v => parsed && kvNat? res "v" == some v
-        | none => !parsed
-      let othersImpl := (res.find? (·.startsWith "others=")).bind fun w => parseRecs (String.ofList (w.toList.drop 7))
-      if !okV || othersImpl != some others then
+    | .ok rs =>
+      if rs != recsImpl then
         s ← monitor s "stream-accept-noncanonical" s!"BigSize-record stream decoded to something else than its records: {line.take 140}"
       if s.kind == "bs-valid" then s ← sample s line
+    | .error e =>
+      if explainedByBigsize known p2p inp recsImpl then
+        s ← monitor s "bigsize-record-length" s!"decoder=tlv_DBigSize accepted a BigSize record whose declared length differs from the bytes DBigSize consumed ({repr e}): {line.take 140}"
+      else
+        s ← monitor s "stream-accept-noncanonical" s!"accepted a stream that is not canonical ({repr e}) and not explained by DBigSize: {line.take 140}"
   else
-    if spec.isSome then
+    match spec with
+    | .ok _ =>
       s ← monitor s "stream-reject-canonical" s!"rejected ({res.getD 1 "?"}) a canonical stream with a well-formed BigSize record: {line.take 120}"
-    else s := { s with nontrivial := s.nontrivial + 1 }
+    | .error _ => s := { s with nontrivial := s.nontrivial + 1 }
+  return s
+
+/-- direct probe of ONE record decoder: accepted ⇒ bytes consumed = declared length. -/
+def stepProbe (s : St) (ws : List String) (line : String) : IO St := do
+  let res := resWords ws
+  let tag := res.headD "?"
+  let name := ws.getD 1 "?"
+  let via := kvNat? ws "via" == some 1
+  let l := (kvNat? ws "l").getD 0
+  let used := (kvNat? res "used").getD 0
+  let mut s := bump { s with ops := s.ops + 1 } s!"probe_{tag}"
+  if tag == "panic" then
+    s ← monitor s "panic" s!"decoder={name} panicked: {line.take 120}"
+  else if tag == "ok" then
+    s := { s with nontrivial := s.nontrivial + 1 }
+    if used != l then
+      if via then
+        s ← monitor s "bigsize-record-length" s!"decoder={name} via=DBigSize l={l} used={used} (accepted, consumed a different number of bytes than declared)"
+      else
+        s ← monitor s "decoder-consumed-length" s!"decoder={name} l={l} used={used} (accepted, consumed a different number of bytes than declared; Stream.decode continues behind what was consumed)"
   return s
 
 /-! ## lnwire stream -/
@@ -364,9 +426,9 @@ def classifyLoss (known : List Nat) (inp enc : List Nat) : String :=
   let k := commonPrefixLen inp enc
   let cands := (List.range 10).filterMap fun d => if d ≤ k then some (k - d) else none
   let verdicts := cands.filterMap fun b =>
-    match specParse [] true (inp.length + 2) none (inp.drop b),
-          specParse [] true (enc.length + 2) none (enc.drop b) with
-    | .ok ri, .ok ro =>
+    match specParse [] true false (inp.length + 2) none (inp.drop b),
+          specParse [] true false (enc.length + 2) none (enc.drop b) with
+    | .ok (ri, _), .ok (ro, _) =>
       let tin := ri.map (·.1)
       let tout := ro.map (·.1)
       let dropped := tin.filter (!tout.contains ·)
@@ -419,7 +481,14 @@ def stepMsg (s : St) (ws : List String) (line : String) (isFail : Bool) : IO St 
     s := { s with nontrivial := s.nontrivial + 1 }
     if res[1]? == some "encerr" then
       s := bump s s!"{pre}_ok_encerr"
-      s ← monitor s (if isFail then "failure-reencode-error" else "reencode-error") s!"decoded message cannot be re-encoded: in={inHex.take 80}"
+      -- EncodeFailure refuses inner failure messages longer than 256 bytes (recorded finding);
+      -- the inner length is taken from the input's own length prefix.  Any other refusal is
+      -- a plain `reencode-error`.
+      let innerLen := ((hexBytes? (String.ofList (inHex.toList.take 4))).map specNat).getD 0
+      if isFail && innerLen > 256 then
+        s ← monitor s "failure-reencode-error" s!"innerlen={innerLen} DecodeFailure accepted an inner failure message of {innerLen} > 256 bytes that EncodeFailure refuses: in={inHex.take 80}"
+      else
+        s ← monitor s "reencode-error" s!"decoded message cannot be re-encoded{if isFail then s!" (onion failure, innerlen={innerLen})" else ""}: in={inHex.take 80}"
     else
       let size := (kvNat? res "size").getD 0
       s := { s with maxSize := max s.maxSize size }
@@ -462,15 +531,16 @@ def stepMsg (s : St) (ws : List String) (line : String) (isFail : Bool) : IO St 
         if s.kind == "valid" then s ← sample s line
   else
     s ← mismatch s s!"unparsed result: {line.take 80}"
-  -- (X) model: schema interpreter
-  if !isFail then
+  -- (X) model: schema interpreter (messages), framing + fixed-payload codes (onion failures)
+  if true then
     match hexBytes? inHex with
     | none => s ← mismatch s "bad hex"
     | some inp =>
-      match Wire.modelMessage (toU8 inp) with
+      match (if isFail then Wire.modelFailure (toU8 inp) else Wire.modelMessage (toU8 inp)) with
       | none => pure ()
       | some out =>
-        s := { s with modelled := s.modelled + 1,
+        s := if isFail then bump s "fail_replayed_by_model" else
+             { s with modelled := s.modelled + 1,
                       modelledTypes := if s.modelledTypes.contains s.mtype then s.modelledTypes else s.mtype :: s.modelledTypes }
         match out with
         | .reject =>
@@ -534,6 +604,7 @@ def step (s : St) (line : String) : IO St := do
   | "vw" :: _ => stepVarWrite s ws
   | "st" :: _ => stepStream s ws line
   | "bs" :: _ => stepBigSizeRec s ws line
+  | "probe" :: _ => stepProbe s ws line
   | "msg" :: _ => stepMsg s ws line false
   | "fail" :: _ => stepMsg s ws line true
   | "val" :: _ => stepVal s ws line
